@@ -20,7 +20,7 @@ RULE = (
     "(ordinary, 31 Dec, 28 Feb, 29 Feb, month end): expected the first such time strictly after the reference minute.  Non-trivial = all judged cases except bare HH:MM; distinct = distinct (text, ts, latent)."
 )
 ASSUMPTIONS = [
-    "'<clock> <part of day>': afternoon/evening/night move an hour 1-11 into the second half of the day, also for night ('3 at night' = 15:00: the code's convention, kept); the hour after midnight stays at night (0 uhr nachts, quarter to one at night = 00:45); '12 <fraction> at night / in the morning' is not used",
+    "'<clock> <part of day>': afternoon/evening/night move an hour 1-11 into the second half of the day, also for night ('3 at night' = 15:00: the code's convention, kept); hour 0 and hour 12 at night are the hour after midnight (0 uhr nachts, 12 uhr nachts, quarter to one at night = 00:45); '12 <fraction> in the morning' is not used",
     "hybrids of two notations ('8 uhr pm', '1200 uhr am mittag', 'eight pm') are not part of the enumerated notations",
     "12 am = 00, 12 pm = 12 (stated by the property); 'half <hour>' / 'halb <hour>' mean half before the hour (the code's convention, kept)",
     "bare dotted 'H.MM' is not used (reads as day.month); four-digit notation only within the documented heuristic",
@@ -100,9 +100,9 @@ def pod_forms():
             if a == "noon":
                 continue  # '<hour> in the noon' is not an expression anybody writes
             for h in range(1, 13):
-                if name == "night" and h == 12:
-                    continue
                 exp = h + 12 if (h < 12 and any(p in name for p in pm)) else h
+                if name == "night" and h == 12:
+                    exp = 0  # 12 at night is midnight
                 if name in ("morning", "forenoon") and h == 12:
                     continue
                 en = a.isascii() and name != "noon" or a in ("noon",)
@@ -130,8 +130,10 @@ def pod_forms():
 def _pm_shift(bh, name):
     """the code's convention for '<clock time> <part of day>' (kept as the specification): afternoon/evening/night move an hour below 12 into the second half of the day;
     the hour after midnight is 'at night' as it stands (0 uhr nachts, quarter to one at night)"""
+    if name == "night" and bh in (0, 12):
+        return 0
     if name in ("afternoon", "evening", "night") and bh < 12:
-        return bh if (bh == 0 and name == "night") else bh + 12
+        return bh + 12
     return bh
 
 
@@ -158,8 +160,8 @@ def pod_extra_forms():
             en = f.isascii() and f != "halb"
             for hw in (str(h), words_en[h] if en else words_de[h]):
                 for ptxt, name in (pods_en if en else pods_de):
-                    if bh == 12 and name in ("night", "morning"):
-                        continue  # 'quarter past twelve at night / in the morning': the 12 is the hour after midnight for a reader, the hour after noon for the code
+                    if bh == 12 and name == "morning":
+                        continue  # 'quarter past twelve in the morning': the 12 is the hour after midnight for a reader, the hour after noon for the code
                     exp = _pm_shift(bh, name)
                     out.append(("fraction in pod", "{} {} {}".format(f, hw, ptxt), exp, mi))
                     if not en:
